@@ -14,22 +14,30 @@ use stun_rs::{MessageDecoder, StunAttribute};
 /// Are the bytes accepted as carrying a valid FINGERPRINT? (validating decoder returns it, or the
 /// get_input_text + validate route the agent uses says true)
 pub fn fp_accepted(bytes: &[u8], plain: &MessageDecoder, validating: &MessageDecoder) -> Result<bool, String> {
+    fp_accepted_each(bytes, plain, validating).map(|(a, b)| a || b)
+}
+
+/// (by the validating decoder, by get_input_text + validate): an altered message must be refused by both, the encoder's own
+/// output accepted by both
+pub fn fp_accepted_each(bytes: &[u8], plain: &MessageDecoder, validating: &MessageDecoder) -> Result<(bool, bool), String> {
     guard(|| {
+        let mut by_decoder = false;
+        let mut by_validate = false;
         if let Ok((m, _)) = validating.decode(bytes) {
             if m.attributes().iter().any(|a| matches!(a, StunAttribute::Fingerprint(_))) {
-                return true;
+                by_decoder = true;
             }
         }
         if let Ok((m, _)) = plain.decode(bytes) {
             if let Some(StunAttribute::Fingerprint(fp)) = m.get::<Fingerprint>() {
                 if let Some(input) = stun_rs::get_input_text::<Fingerprint>(bytes) {
                     if fp.validate(&input) {
-                        return true;
+                        by_validate = true;
                     }
                 }
             }
         }
-        false
+        (by_decoder, by_validate)
     })
 }
 
@@ -62,10 +70,11 @@ fn check_msg(lm: &LMsg, k: &Keyed, stride: usize, rep: &mut Report) {
     let plain = cu::decoder(Opts::default_ctx(), None);
     let o = Opts { ctx: true, key: true, validation: true, unknown_data: false, not_ignore: false };
     let validating = cu::decoder(o, Some(k.subject));
-    match fp_accepted(&enc, &plain, &validating) {
-        Ok(true) => rep.sym("accepted-untampered"),
-        Ok(false) => {
-            rep.violate("untampered-message-rejected", "", replay());
+    match fp_accepted_each(&enc, &plain, &validating) {
+        Ok((true, true)) => rep.sym("accepted-untampered"),
+        Ok((d, v)) => {
+            let by = if !d && !v { "" } else if !d { "/by-the-validating-decoder" } else { "/by-get_input_text-and-validate" };
+            rep.violate(format!("untampered-message-rejected{}", by), "", replay());
             return;
         }
         Err(p) => {
